@@ -242,9 +242,14 @@ func (c *Ctx) Finish() int {
 				keys = append(keys, kk)
 			}
 			sort.Strings(keys)
-			if len(keys) > 60 {
+			if len(keys) > 40 {
 				cov[k+"_count"] = len(keys)
-				keys = keys[:60]
+				mm := map[string]int{}
+				for _, kk := range keys[:40] {
+					mm[kk] = m[kk]
+				}
+				cov[k] = mm
+				continue
 			}
 			cov[k] = m
 			continue
